@@ -1,0 +1,55 @@
+//go:build verif
+
+package builtin
+
+import "ti/base"
+
+// Verification instrumentation (build tag verif): reload the configuration
+// from ./.ti-config into pristine tables, and snapshot / restore / digest the
+// builtin type templates.
+
+var verifTemplates = map[string]*base.T{
+	"NilT": &NilT, "SymbolT": &SymbolT, "BoolT": &BoolT, "DefaultBoolT": &DefaultBoolT,
+	"RangeT": &RangeT, "BlockResultArrayT": &BlockResultArrayT, "BlockT": &BlockT,
+	"DefaultBlockT": &DefaultBlockT, "UntypedT": &UntypedT, "DefaultUntypedT": &DefaultUntypedT,
+	"StringT": &StringT, "DefaultStringT": &DefaultStringT, "OptionalStringT": &OptionalStringT,
+	"IntT": &IntT, "DefaultIntT": &DefaultIntT, "OptionalIntT": &OptionalIntT,
+	"FloatT": &FloatT, "DefaultFloatT": &DefaultFloatT, "OptionalFloatT": &OptionalFloatT,
+	"ArrayT": &ArrayT, "StringArrayT": &StringArrayT, "IntArrayT": &IntArrayT, "FloatArrayT": &FloatArrayT,
+	"HashT": &HashT, "KeyArrayT": &KeyArrayT, "KeyValueArrayT": &KeyValueArrayT,
+	"SelfT": &SelfT, "NumberT": &NumberT, "UnifyT": &UnifyT, "OptionalUnifyT": &OptionalUnifyT,
+	"SelfArrayT": &SelfArrayT, "ArgumentT": &ArgumentT, "UnifyArgumentT": &UnifyArgumentT,
+	"FlattenT": &FlattenT, "ItemT": &ItemT, "OwnerT": &OwnerT, "IntIntT": &IntIntT,
+}
+
+var verifTemplateCopy = map[string]base.T{}
+
+func init() {
+	for k, p := range verifTemplates {
+		verifTemplateCopy[k] = base.VerifCopyT(*p)
+	}
+}
+
+func VerifRestoreTemplates() {
+	for k, p := range verifTemplates {
+		*p = base.VerifCopyT(verifTemplateCopy[k])
+	}
+}
+
+func VerifTemplateDigest() map[string]string {
+	out := map[string]string{}
+	for k, p := range verifTemplates {
+		out["template|"+k] = base.VerifDigestValue(p)
+	}
+	return out
+}
+
+// VerifReload resets package base to its pristine state and loads
+// ./.ti-config again (cwd-relative, as the real init does).
+func VerifReload() error {
+	base.VerifRestore(base.VerifPristine)
+	VerifRestoreTemplates()
+	err := loadBuiltinFromJSON()
+	base.VerifMarkConfigured()
+	return err
+}
